@@ -58,20 +58,18 @@ def check_fold(chk, key, where, sm, sx, rec, state_pred=None):
             probs.append('initial state is not the empty state: %s' % T.show(init)[:120])
         if any(not nf.is_zero(nf.of_term(x)) for x in sm.comps(init)):
             probs.append('initial compensation is not 0')
-        if len(rec['steps']) != 1:
-            probs.append('%d continuing paths per iteration (expected exactly one: append cannot fail)' % len(rec['steps']))
+        if not rec['steps']:
+            probs.append('no continuing path through the loop body')
         for st in rec['steps']:
             nexts = [e for e in st['events'] if e[0] == 'next']
             if len(nexts) != 1 or nexts[0][2] is None:
                 probs.append('an iteration does not consume exactly one element (next events: %d)' % len(nexts))
                 continue
             e = nexts[0][2]
-            post = st['cell_post'][c]
+            # inductive invariant "compensation = 0 over the reals": base checked above, step here
+            post = T.subst(st['cell_post'][c], {x: ZERO for x in sm.comps(hav)})
             if any(not nf.is_zero(nf.of_term(x)) for x in sm.comps(post)):
                 probs.append('compensation is not real-invariant 0 after a step')
-            # the invariant just established (base: 0, step: 0 for any value) lets the carried
-            # compensation be replaced by 0 in the step obligation
-            post = T.subst(post, {x: ZERO for x in sm.comps(hav)})
             ah, apost = sm.alpha(hav), sm.alpha(post)
             exp = (T.op('add', ah[0], e), T.op('add', ah[1], T.op('mul', e, e)), T.op('add', ah[2], T.mk_int(1)))
             if not (nf.term_equal(apost[0], exp[0]) and nf.term_equal(apost[1], exp[1]) and nf.term_equal(apost[2], exp[2])):
@@ -144,17 +142,16 @@ def run_cfg(chk, facts, cfg):
             chk.saw(facts, fn, paths=len(paths))
             oks = [p for p in paths if p.is_ret()]
             probs = []
-            if len(paths) != 1 or len(oks) != 1:
+            if not oks or len(oks) != len(paths):
                 probs.append('%d paths (%d returning)' % (len(paths), len(oks)))
-            else:
-                p = oks[0]
+            for p in oks:
                 if unwrap_ok(p.ret) is None:
                     probs.append('does not return Ok(())')
                 post = p.effects.get('self')
-                if any(not nf.is_zero(nf.of_term(x)) for x in sm.comps(post)):
-                    probs.append('new compensation is not 0 over the reals')
-                # with the invariant c = 0
+                # inductive invariant c = 0 (base: the empty state): c = 0 must give c' = 0
                 post0 = T.subst(post, {c1: ZERO, c2: ZERO})
+                if any(not nf.is_zero(nf.of_term(x)) for x in sm.comps(post0)):
+                    probs.append('new compensation is not 0 over the reals')
                 a = sm.alpha(post0, comp_zero=False)
                 for got, want, nm in ((a[0], T.op('add', S1, X), 'S1 + x'), (a[1], T.op('add', S2, T.op('mul', X, X)), 'S2 + x^2'), (a[2], T.op('add', N, T.mk_int(1)), 'n + 1')):
                     if not nf.term_equal(got, want):
